@@ -1,18 +1,38 @@
 SPEC_PART = dict(
     props_file="C14_hll",
-    legs=[dict(family="hll", focus="malformed", oracles=["no_panic"], profiles=["debug", "release"],
-               mask=[2, 3, 7, 8, 9], n_quick=200, n_thorough=4000, panic_is_violation=True)],
-    trusted=["hll: the modelled panic sites of HllSketch::deserialize are the shift by lg_arr, HashSet::update's 'HashSet full', "
-             "AuxMap's three unreachable!()s and Array4's expect()s; slice indexing inside read_exact / Vec allocation are std's",
-             "hll: allocation is not modelled; the harness's counting allocator checks peak <= 64 * len + 1 MiB on every parse"],
+    legs=[dict(family="hll", focus="malformed", oracles=["no_panic", "accepted_ok"], profiles=["debug", "release"],
+               mask=[2, 3, 4, 5, 7, 8, 9, 30, 31], n_quick=200, n_thorough=4000, panic_is_violation=True)],
+    trusted=["hll: the modelled panic sites of HllSketch::deserialize are HashSet::update's 'HashSet full', AuxMap's three "
+             "unreachable!()s and Array4's expect()s (the list / Hll6 / Hll8 reader paths have none after the repairs: lg_arr is "
+             "range-checked before any shift); slice indexing inside read_exact / Vec allocation are std's",
+             "hll: allocation is not modelled; the harness's counting allocator checks peak <= 64 * len + 1 MiB on every parse",
+             "hll: estimate() / upper_bound() / lower_bound() of an accepted OUT-OF-ORDER image run the composite estimator (cubic "
+             "interpolation, debug assertions), which the model does not contain: called on the crate only (op 32), debug and "
+             "release, any panic is a violation"],
     assumptions=["hll: usize = 64 bits"],
-    covers="hll: hll_deserialize is total -- never Stuck for ANY list of numbers (c14_hll_deserialize_total); Ok => image_wf "
-           "(c14_hll_ok_is_wellformed): list of 8 slots with < 8 coupons, set with probe invariant / exact len / load <= 3/4 / "
-           "lg size in 5..lg_k-3, Hll4 satisfying the full Array4 invariant of C02 for registers <= 63, Hll8 registers <= 63 with exact "
-           "num_zeros (partial: Hll6 only lg_k; Hll4 images without a register at cur_min; value-0 coupons). Seven reader defects were "
-           "found and repaired on the way (D1, D4, D13, array image validation, allocation before length check, COMPACT flag of the "
-           "writer: known_findings.d). Tie: structure-aware mutations of spec-encoded images of every variant (bit/byte flips, boundary "
-           "values in every lg/count/flag field, truncation at every offset, extension, payload damage, random bytes); model and crate "
-           "must agree on Ok/Err and on the dumped state; every Ok value is queried, re-serialized, updated, round-tripped; any panic "
-           "or allocation above 64 * len + 1 MiB is a violation (debug + release).",
+    covers="hll: hll_deserialize is total -- never Stuck for ANY list of numbers (c14_hll_deserialize_total; non-trivial for the set "
+           "and Hll4-aux paths); Ok => image_wf (c14_hll_ok_is_wellformed): list = the list invariant of C02 (8 slots, the coupons "
+           "first, distinct, valid, count = occupied slots < 8, so no later update is dropped), set with probe invariant / len = "
+           "announced count / valid coupons / load <= 3/4 / lg size in 5..lg_k-3, Hll4 satisfying the full Array4 invariant of C02 "
+           "for registers <= 63, Hll6 a byte array with exact num_zeros, Hll8 registers <= 63 with exact num_zeros, and for all "
+           "arrays hip_accum / kxq0 / kxq1 finite and non-negative (c14_hll_ok_estimator_fields). The usability clause: a CANONICAL Ok "
+           "value (set >= 8 coupons, Hll4 with a register at cur_min: every image a writer emits) is a well-formed source "
+           "(c14_hll_ok_is_source), hence can be updated (c11_hll_source_updates) and merged (c03 / c17) without reaching a panic "
+           "site -- proved; serialize has no panic site; for QUERIES there is NO theorem (composite estimator not modelled) -- "
+           "exercised only; non-canonical accepted images are exercised only. Eleven reader / writer defects were found and repaired "
+           "on the way (D1, D4, D13, array image validation, allocation before length check, COMPACT flag of the writer, NaN / "
+           "infinite / negative estimator fields [08d9c35: estimate() of an accepted image failed a debug assertion], list / set "
+           "count consistency [2f7e0d8, b0014c6: an accepted list image dropped every later update]: known_findings.d). Tie: structure-aware "
+           "mutations of spec-encoded images of every variant (bit/byte flips, boundary values in every lg/count/flag field, "
+           "truncation at every offset, extension, payload damage, random bytes) plus crafted images: every type x flags 0x18 / "
+           "0x08 / 0x10 / 0 with NaN (three payloads), +-infinity, negative, -0, 0, subnormal, 1e300, f64::MAX in kxq0 / kxq1 / "
+           "hip_accum, and list / set images whose occupied slots disagree with the count, repeat a coupon or carry value 0; model "
+           "and crate must agree on Ok/Err and on the dumped state; every Ok value is queried (estimate + six bounds: in lock step "
+           "with the model when in order, crate-only when out of order), re-serialized, re-read, merged into a union, updated, "
+           "round-tripped and queried again; any panic or allocation above 64 * len + 1 MiB is a violation (debug + release). "
+           "Oracle accepted_ok: a mutated image that the independent layout decoder still understands and the crate ACCEPTS must "
+           "give exactly the sketch it encodes (dumped state, its merge into a union, re-serialization, estimate not NaN / not "
+           "negative); this found fix b0014c6 (updatable list announcing 0 coupons). Known finding C14-hll-kxq-not-validated: kxq0 "
+           "/ kxq1 of an accepted image are not compared with its registers, so a corrupt image can give a sketch whose estimates "
+           "are meaningless after updates and whose own image is refused (Err, no panic) -- tolerated by the oracle, declared.",
 )
